@@ -102,8 +102,7 @@ def run(chk: Check):
         res = chk.run_model(naming.model(pool, k, is_dir, kind, no_combine=nocomb), label=f"design: {label}, <= {k} of {len(pool)} names",
                             timeout_s=3000)
         cases = res.cases
-        stride = max(1, len(cases) // budget)
-        picked = cases[(chk.seed + 3) % stride::stride]
+        picked = naming.pick(cases, budget, chk.seed + 3)
         if k == 4 and len(pool) <= 5:        # targeted pool: every 4-sibling sequence with two duplicates or two L/R pairs, unstrided
             picked = [c for c in cases if len(c["names"]) == 4 and naming.collision_rich([naming.S(n) for n in c["names"]])]
         for i, c in enumerate(picked):
